@@ -196,24 +196,25 @@ def join_with_limit(  # noqa: PLR0911
 
 
 def error_context(text: str, index: int) -> tuple[str, int, int]:
-    """Return a (line, lineno, col) tuple for position `index` in `text`."""
-    if not text:
-        return ("", 1, 0)
+    """Return a (line, lineno, col) tuple for position `index` in `text`.
 
+    As with `Position.line_col`, the end of a text that ends with a line break
+    is the start of a new, empty line.
+    """
     lines = text.splitlines(keepends=True)
     cumulative_length = 0
-    target_line_index = len(lines) - 1
 
     for i, line in enumerate(lines):
         cumulative_length += len(line)
         if index < cumulative_length:
-            target_line_index = i
-            break
+            # Column number within the line (1-based)
+            column_number = index - (cumulative_length - len(line)) + 1
+            return (line.rstrip(), i + 1, column_number)
 
-    # Line number (1-based)
-    line_number = target_line_index + 1
-    # Column number within the line
-    column_number = index - (cumulative_length - len(lines[target_line_index])) + 1
-    current_line = lines[target_line_index].rstrip()
+    if not lines or lines[-1].splitlines() != [lines[-1]]:
+        # Empty text, or the end of a text that ends with a line break.
+        return ("", len(lines) + 1, index - cumulative_length + 1)
 
-    return (current_line, line_number, column_number)
+    last_line = lines[-1]
+    column_number = index - (cumulative_length - len(last_line)) + 1
+    return (last_line.rstrip(), len(lines), column_number)
